@@ -143,7 +143,7 @@ def run(ctx):
     nsys = 150 if quick else 2500
     systems = []
     for k in range(nsys):
-        s = U.gen_system(rng, max_entries=rng.choice([1, 2, 3, 3, 4]), allow_order=(1, 1, 1, 2, 2, 3))
+        s = U.gen_system(rng, max_entries=rng.choice([1, 2, 3, 3, 4]), allow_order=(1, 1, 1, 2, 2, 3), const_funs=True)
         if U.offsets(s)[1] <= 7:
             systems.append(s)
     # every entry order for small systems
